@@ -61,6 +61,9 @@ func runWorker(r *ev.Run, col *sqlgen.Collector) {
 		}
 	}
 	col.States(accepted)
+	if *shard == 0 {
+		overflowPart(col, env)
+	}
 	env.close(col)
 	col.Info("statements_of_shard", mine)
 	col.Info("cpu_s", cpuSeconds())
